@@ -1,15 +1,24 @@
 -------------------------- MODULE TraceStorageKeys --------------------------
-(* C17 binding: every raw key that real contract operations wrote (trace.ndjson: op, raw bytes) is judged: namespace
-   (Confined), owning contract, and the record kinds of the table that explain it. *)
+(* C17 binding: every raw key that real contract operations wrote (trace.ndjson: ev = "key", op, raw bytes) is judged: namespace
+   (Confined), owning contract, and the record kinds of the table that explain it; every same-kind parameter pair (ev = "pair")
+   is judged for injectivity. *)
 EXTENDS StorageKeys, TLCExt
 VARIABLE l
 TraceLog == ndJsonDeserialize("trace.ndjson")
 Ev == TraceLog[l]
 TraceInit == TLCSet(1, 1) /\ l = 1 /\ pair = <<1, 1>> /\ done = TRUE
+(* same kind, different parameters: the operation that writes the kind was run twice, in two fresh universes, with parameter
+   vectors p1 and p2 (the driver's own little-endian bytes); raw1 / raw2 are the raw keys it wrote, f1 / f2 the bytes those
+   keys carry at the integer fields *)
+DistinctParamsDistinctKeys(e) == e.p1 # e.p2 => e.raw1 # e.raw2
+Faithful(e) == e.f1 = e.p1 /\ e.f2 = e.p2
+JudgeKey == LET K == KindsOf(Ev.raw)
+            IN PrintT(<<"VERDICT", ToJson([i |-> l, confined |-> Confined(Ev.raw), ns |-> Ev.raw[1], contract |-> ContractOf(Ev.raw),
+                                           kinds |-> {Layouts[k].name : k \in K}])>>)
+JudgePair == PrintT(<<"PAIR", ToJson([i |-> l, ok |-> DistinctParamsDistinctKeys(Ev), faithful |-> Faithful(Ev),
+                                      confined |-> Confined(Ev.raw1) /\ Confined(Ev.raw2)])>>)
 TraceNext == /\ l <= Len(TraceLog)
-             /\ LET K == KindsOf(Ev.raw)
-                IN PrintT(<<"VERDICT", ToJson([i |-> l, confined |-> Confined(Ev.raw), ns |-> Ev.raw[1], contract |-> ContractOf(Ev.raw),
-                                               kinds |-> {Layouts[k].name : k \in K}])>>)
+             /\ IF Ev.ev = "pair" THEN JudgePair ELSE JudgeKey
              /\ l' = l + 1 /\ UNCHANGED <<pair, done>>
 TraceSpec == TraceInit /\ [][TraceNext]_<<pair, done, l>>
 HighWater == TLCSet(1, IF TLCGet(1) < l THEN l ELSE TLCGet(1))
